@@ -449,6 +449,18 @@ def accounted(src, tree, toks):
     real = [(p, k, t) for p, k, t in toks if k != "C"]
     if not real or real[0][1:] != ("K", "package"):
         return "source does not start with a package clause"
+    # imports before any other declaration: at bracket depth 0 no `import` keyword after a func/var/const/type keyword
+    depth, seen_decl = 0, None
+    for p, k, t in real:
+        if k == "O" and t in ("(", "[", "{"):
+            depth += 1
+        elif k == "O" and t in (")", "]", "}"):
+            depth -= 1
+        elif k == "K" and depth == 0:
+            if t in ("func", "var", "const", "type"):
+                seen_decl = seen_decl if seen_decl is not None else p
+            elif t == "import" and seen_decl is not None:
+                return "import declaration at %d after another declaration (at %d)" % (p, seen_decl)
     return None
 
 
@@ -1084,10 +1096,14 @@ def docs_cases(seed, n):
                     # tagged, array, function-typed, nested struct); `inner` = Field nodes inside the field's type
                     text, inner = rng.choice(FIELD_FORMS)
                     ln = "\t" + text.replace("#", "%s%d" % (name, fi))
-                    if rng.random() < 0.4:
+                    r_ = rng.random()
+                    if r_ < 0.4:
                         cid[0] += 1
-                        ln += " // e%d" % cid[0]
-                        fd = fd + ["// e%d" % cid[0]]
+                        # the comment trailing the field on its line: a line comment, a general comment, or a
+                        # general comment that starts on the field's line and ends on a later one
+                        tc = ["// e%d", "/* e%d */", "/* e%d\n\t   continued */"][0 if r_ < 0.2 else 1 if r_ < 0.3 else 2] % cid[0]
+                        ln += " " + tc
+                        fd = fd + [tc]
                     expected.append(("Field", fd))
                     expected.extend([("Field", [])] * inner)
                     lines.append(ln)
@@ -1360,3 +1376,37 @@ def oracle_contains_shape(c, line, tl=None):
     if c.expected not in proj_shape(line):
         return "the expression %s does not have the spec's grouping %s in this position" % (c.note, c.expected)
     return None
+
+
+# ---------------------------------------------------------------- C13/C08/C02: optional separators before a closing bracket
+SEPARATED = [
+    ("const (", ["A = iota", "B", "C"], ";", ")", "%s"), ("const (", ["a, b = iota, iota * 2", "c, d"], ";", ")", "%s"),
+    ("var (", ["a = 1", "b, c int", "d T"], ";", ")", "%s"), ("type (", ["A = B", "C[T any] struct{}", "D int"], ";", ")", "%s"),
+    ("import (", ["\"a\"", "b \"c\"", ". \"d\""], ";", ")", "%s"),
+    ("type S struct {", ["a int", "b, c string `t`", "*E", "pkg.F", "G[int]"], ";", "}", "%s"),
+    ("type I interface {", ["m()", "E", "~int | string", "n(x int) bool"], ";", "}", "%s"),
+    ("func f() {", ["x := 1", "x++", "return", "goto L", "break", "continue", "fallthrough", "f()", "L: g()", "c <- 2i", "v = T{}", "for {}", "{ }"], ";", "}", "%s"),
+    ("func f() { switch x {", ["case 1: a()", "case 2, 3: b(); c()", "default: d()"], ";", "} }", "%s"),
+    ("func f() { select {", ["case <-c: a()", "case v := <-c: b(v)", "default:"], ";", "} }", "%s"),
+    ("func f() { switch t := x.(type) {", ["case int: a(t)", "case nil, *T: b()", "default: return"], ";", "} }", "%s"),
+    ("var x = T{", ["1", "a: 2", "{3, 4}", "k: {5}"], ",", "}", "%s"), ("var x = f(", ["a", "b + 1", "g(c)"], ",", ")", "%s"),
+    ("func f(", ["a int", "b, c string", "d ...T"], ",", ") {}", "%s"), ("func f[", ["T any", "U, V comparable"], ",", "]() {}", "%s"),
+    ("var x M[", ["K", "V"], ",", "]", "%s"), ("func f() (", ["a int", "b error"], ",", ") { return }", "%s"),
+    ("var x = []int{", ["1", "2", "3"], ",", "}", "%s"), ("var x = map[string]int{", ["\"a\": 1", "\"b\": 2"], ",", "}", "%s"),
+    ("type T[", ["P any", "Q interface{ m() }"], ",", "] int", "%s"), ("var x T[", ["int"], ",", "]", "%s"),
+    # (a trailing comma in an index / type-argument list of an EXPRESSION is known finding KF-31 and not listed here)
+]
+
+
+def separator_cases():
+    """each bracketed list written (0) on one line without the final separator, (1) on one line with it, (2) one
+    item per line (line ends do the work of `;`; a `,` list keeps its commas), (3) as (2) with CRLF: one program"""
+    out = []
+    for gi, (op, items, sep, cl, wrap) in enumerate(SEPARATED):
+        body = [op + (sep + " ").join(items) + cl,
+                op + (sep + " ").join(items) + sep + cl,
+                op + "\n\t" + ((sep if sep == "," else "") + "\n\t").join(items) + (sep if sep == "," else "") + "\n" + cl]
+        body.append(body[2].replace("\n", "\r\n"))
+        for ri, b in enumerate(body):
+            out.append(Case("package p\n" + b + "\n", "F-separators", prog=gi, style=str(ri)))
+    return out
